@@ -416,7 +416,7 @@ def split_top_level(text: str) -> list[str]:
 
 
 CALLEES = ["f", "obj.m", "g(1)", "tbl[0]", "a.b.c", "f(x)(y)", "match", "case", "type", "_", "match.x", "print"]
-MACRO_CONTEXTS = ["{M}\n", "x = {M}\n", "x = {M} + 1\n", "r = g({M}, 2)\n", "v = [{M}][0]\n", "w = {M}.attr\n", "{M}; y = 2\n", "if {M}:\n    z = 3\n", "q = ({M},\n     4)\n", "for i in {M}: pass\n", "x = {M}\ny = [1,\n 2]\nz = 5\n"]
+MACRO_CONTEXTS = ["{M}\n", "x = {M}\n", "x = {M} + 1\n", "r = g({M}, 2)\n", "v = [{M}][0]\n", "w = {M}.attr\n", "{M}; y = 2\n", "if {M}:\n    z = 3\n", "q = ({M},\n     4)\n", "for i in {M}: pass\n", "x = {M}\ny = [1,\n 2]\nz = 5\n", 'x = f"{{M}}"\n', "y = f'{{M}:>10}'\n", "z = f'''a {{M}!r} b'''\n", 'w = f"{a}{{M}}{b}" + c\n', 'v = f"{k:{{M}}}"\n']
 
 
 def call_macro_case(rnd):
